@@ -22,6 +22,7 @@ func init() {
 		Parts: []Part{
 			{Name: "graphs", Run: c02Run, QuickS: 240, ThoroughS: 1200},
 			{Name: "typed-cycles", Run: c02Typed, QuickS: 90, ThoroughS: 600},
+			{Name: "sealed-interface-cycles", Run: c02Sealed, Workers: 2, QuickS: 30, ThoroughS: 60},
 		},
 	})
 }
